@@ -10,6 +10,7 @@ import (
 	"net/http/httptest"
 	"strconv"
 	"sync"
+	"sync/atomic"
 	"testing"
 	"time"
 
@@ -54,6 +55,20 @@ type verifC02Case struct {
 	Reqs  int          `json:"reqs"`
 	Inner bool         `json:"inner"`
 	Ops   []verifC02Op `json:"ops"`
+	// multi: several requests through ONE chain instance
+	MReqs []verifC02MReq `json:"mreqs"`
+	MOps  []verifC02MOp  `json:"mops"`
+}
+
+type verifC02MReq struct {
+	Rh0   []verifC02Hdr    `json:"rh0"`
+	Acts  []verifC02Action `json:"acts"`
+	Cause string           `json:"cause"` // cancel | deadline: how this request's deadline comes, if the schedule fires it
+}
+
+type verifC02MOp struct {
+	Op string `json:"op"` // start | step (let the handler do one more action) | fire
+	R  int    `json:"r"`
 }
 
 type verifC02Op struct {
@@ -163,7 +178,7 @@ func (c *verifC02DeadlineCtx) expire() {
 
 const (
 	verifC02RealTimeout = 40 * time.Millisecond
-	verifC02HangLimit   = 3 * time.Second // nothing the code waits for is outstanding: far beyond any scheduling delay
+	verifC02HangLimit   = 2 * time.Second // nothing the code waits for is outstanding: far beyond any scheduling delay
 )
 
 type verifC02Script struct {
@@ -462,6 +477,208 @@ func verifC02RunConns(c *verifC02Case) map[string]any {
 	return map[string]any{"ops": obs}
 }
 
+// ---------------------------------------------------------------------------- kind "multi"
+
+// verifC02RunMulti sends several requests through ONE Timeout(+Recover) chain instance. Every request has its own
+// scripted handler; the schedule says which request starts, which handler does its next action, whose
+// deadline comes. A request is "inside" from the moment its handler is parked in front of its first action,
+// so two started, unfinished requests are provably inside the same middleware instance at the same time.
+func verifC02RunMulti(c *verifC02Case) map[string]any {
+	type reqState struct {
+		s        *verifC02Script
+		w        *verifC02Writer
+		req      *http.Request
+		fire     func()
+		idone    chan struct{}
+		gdone    chan struct{}
+		started  bool
+		parked   bool // handler alive and waiting for the driver
+		greturn  bool // ServeHTTP is known to have returned
+		blocked  bool // some wait that nothing justifies exceeded the limit
+		panicked bool
+	}
+	rs := make([]*reqState, len(c.MReqs))
+	for i, q := range c.MReqs {
+		r := &reqState{
+			s:     &verifC02Script{acts: q.Acts, ready: make(chan int), release: make(chan struct{})},
+			w:     &verifC02Writer{rec: httptest.NewRecorder()},
+			idone: make(chan struct{}), gdone: make(chan struct{}),
+		}
+		for _, kv := range q.Rh0 {
+			for _, v := range kv.V {
+				r.w.rec.Header().Add(verifC02Key(kv.K), strconv.Itoa(v))
+			}
+		}
+		var parent context.Context
+		var raw func()
+		if q.Cause == "cancel" {
+			ctx, cancel := context.WithCancel(context.Background())
+			parent, raw = ctx, cancel
+		} else {
+			dc := newVerifC02DeadlineCtx()
+			parent, raw = dc, dc.expire
+		}
+		var once sync.Once
+		r.fire = func() { once.Do(raw) }
+		r.req = httptest.NewRequest(http.MethodPost, "http://localhost/verif", nil).WithContext(parent)
+		r.req.ContentLength = -1
+		r.req.Header.Set("X-Verif-Req", strconv.Itoa(i))
+		rs[i] = r
+	}
+	which := func(r *http.Request) *reqState {
+		i, _ := strconv.Atoi(r.Header.Get("X-Verif-Req"))
+		return rs[i]
+	}
+	probe := func(next http.Handler) http.Handler {
+		return http.HandlerFunc(func(w http.ResponseWriter, r *http.Request) {
+			defer close(which(r).idone)
+			next.ServeHTTP(w, r)
+		})
+	}
+	mws := []chain.Middleware{TimeoutHandler(time.Hour)}
+	if c.Recover {
+		mws = append(mws, RecoverHandler)
+	}
+	mws = append(mws, probe)
+	h := chain.New(mws...).ThenFunc(func(w http.ResponseWriter, r *http.Request) { which(r).s.serve(w, r) }) // ONE instance
+
+	// next: the handler parks again, or the inner chain is over, or (blocked) neither within the limit
+	next := func(r *reqState) {
+		select {
+		case <-r.s.ready:
+			r.parked = true
+		case <-r.idone:
+			r.parked = false
+		case <-time.After(verifC02HangLimit):
+			r.parked, r.blocked = false, true
+		}
+	}
+	waitG := func(r *reqState) {
+		if r.greturn || r.blocked {
+			return
+		}
+		select {
+		case <-r.gdone:
+			r.greturn = true
+		case <-time.After(verifC02HangLimit):
+			r.blocked = true
+		}
+	}
+	inside, maxInside := 0, 0
+	count := func() {
+		inside = 0
+		for _, r := range rs {
+			if r.parked {
+				inside++
+			}
+		}
+		if inside > maxInside {
+			maxInside = inside
+		}
+	}
+	for _, op := range c.MOps {
+		if op.R < 0 || op.R >= len(rs) {
+			continue
+		}
+		r := rs[op.R]
+		if r.blocked {
+			continue
+		}
+		switch op.Op {
+		case "start":
+			if r.started {
+				continue
+			}
+			r.started = true
+			go func() {
+				defer close(r.gdone)
+				r.panicked, _ = verifdrv.Catch(func() { h.ServeHTTP(r.w, r.req) })
+			}()
+			next(r)
+		case "step":
+			if !r.parked {
+				continue
+			}
+			r.s.release <- struct{}{}
+			next(r)
+			if !r.parked && !r.blocked {
+				waitG(r) // the handler is over: its response (done or panic arm) follows without anybody's help
+			}
+		case "fire":
+			if !r.started {
+				continue
+			}
+			r.fire()
+			if !r.greturn {
+				waitG(r) // parked handler: the timeout response must come although the handler stays parked
+			}
+		}
+		count()
+	}
+	// let every request run to its end, all at once (whatever the schedule left undone happens concurrently:
+	// every request must still get its own response)
+	var hung int32
+	finish := func(r *reqState) {
+		deadline := time.After(2 * verifC02HangLimit)
+		for {
+			select {
+			case <-r.s.ready:
+				r.s.release <- struct{}{}
+			case <-r.idone:
+				select {
+				case <-r.gdone:
+				case <-deadline:
+					atomic.StoreInt32(&hung, 1)
+				}
+				return
+			case <-deadline:
+				atomic.StoreInt32(&hung, 1)
+				return
+			}
+		}
+	}
+	var wg sync.WaitGroup
+	for _, r := range rs {
+		if !r.started {
+			continue
+		}
+		wg.Add(1)
+		go func(r *reqState, parked bool) {
+			defer wg.Done()
+			if parked {
+				r.s.release <- struct{}{}
+			}
+			finish(r)
+		}(r, r.parked)
+		r.parked = false
+	}
+	wg.Wait()
+	if atomic.LoadInt32(&hung) != 0 {
+		panic("verif: hung: a request never finished")
+	}
+	out := make([]map[string]any, len(rs))
+	for i, r := range rs {
+		r.fire()
+		if !r.started {
+			out[i] = map[string]any{"started": false}
+			continue
+		}
+		res := r.w.rec.Result()
+		r.w.mu.Lock()
+		events := append([]verifC02Event{}, r.w.events...)
+		r.w.mu.Unlock()
+		r.s.mu.Lock()
+		trace := append([]string{}, r.s.trace...)
+		r.s.mu.Unlock()
+		out[i] = map[string]any{
+			"started": true, "events": events,
+			"resp":  map[string]any{"status": res.StatusCode, "h": verifC02Snap(res.Header), "body": verifC02Bytes(r.w.rec.Body.Bytes())},
+			"trace": trace, "panicked": r.panicked, "blocked": r.blocked,
+		}
+	}
+	return map[string]any{"reqs": out, "max_inside": maxInside}
+}
+
 // TestVerifDriverC02 drives the REST guards (timeout, recover, max-bytes, max-conns) with scripted handlers
 // whose every action waits for the driver, so that each interleaving class with the deadline is forced.
 func TestVerifDriverC02(t *testing.T) {
@@ -486,6 +703,8 @@ func TestVerifDriverC02(t *testing.T) {
 			return obs
 		case "conns":
 			return verifC02RunConns(&c)
+		case "multi":
+			return verifC02RunMulti(&c)
 		}
 		return map[string]any{"error": fmt.Sprintf("unknown kind %q", c.Kind)}
 	})
